@@ -61,7 +61,7 @@ Main ==
    /\ Clause("X06.auth.serve", (a = "yes" /\ rq.form \notin {"dotdot", "nochan"}) => e.status # 401, base)   \* (those name another channel)
    \* removals: only media files that have left the time shift buffer of the track being uploaded
    /\ Clause("X06.tsbd.keep",
-             \A x \in D : x.op = "-" => /\ cl = "parse" /\ rq.kind = "media" /\ x.kind = "media" /\ x.ch = rq.ch /\ x.track = rq.track
+             \A x \in D : x.op = "-" => /\ cl \in {"parse", "open"} /\ rq.kind = "media" /\ x.kind = "media" /\ x.ch = rq.ch /\ x.track = rq.track
                                         /\ MayRemove(x.nr, expNr, f.tsbd, sc.dsec),
              base \o <<"tsbd", f.tsbd, "newest", expNr, "removed", {x.nr : x \in {y \in D : y.op = "-"}}>>)
    /\ CASE cl = "unauth" ->
